@@ -1,10 +1,25 @@
 #!/bin/sh
-# Build the framework from files on disk only (offline).
+# Build the framework from files on disk only (offline): translator output, the Lean project (all models, proofs and
+# property theorems, the driver executable) and the harness in every configuration the quick checks use.
 set -e
 cd "$(dirname "$0")"
 export CARGO_NET_OFFLINE=true
 mkdir -p .build
 python3 translator/translate.py >/dev/null
 (cd lean && lake build)
-(cd harness && CARGO_TARGET_DIR=../.build/h-default RUSTFLAGS=-Awarnings cargo build --offline --quiet)
+python3 - <<'PY'
+import sys
+sys.path.insert(0, ".")
+from vlib import common
+names = ["default", "release", "zeroize", "hazmat", "bcrypt", "allfeat", "forcesoft", "compact", "softcompact", "kuzsoft",
+         "kuzcompact", "serpentloop", "hazmat-soft", "hazmat-softcompact", "zeroize-kuzsoft", "zeroize-kuzcompact", "o0"]
+bad = []
+for n in names:
+    ok, log = common.build_harness(common.CONFIGS[n])
+    print(("built " if ok else "FAILED ") + n, flush=True)
+    if not ok:
+        bad.append(n)
+        print(log[-2000:])
+sys.exit(1 if bad else 0)
+PY
 echo setup-ok
